@@ -46,6 +46,10 @@ type c10Item struct {
 	encWant string    // digest of canonical JSON | "error: ..."
 	decWant string    // digest of decoded message | "error: ..."
 	qryWant string
+	// fixedJSON: decode this document instead of the encoder's output (documents that fail at a known field);
+	// exactErr: the error text is part of the expected result (it names the field)
+	fixedJSON []byte
+	exactErr  bool
 }
 
 func canonJSONDigest(b []byte) string {
@@ -87,8 +91,11 @@ func msgDigest(env *codecEnv, m proto.Message) string {
 	return fmt.Sprintf("%016x", rt.HashBytes(b))
 }
 
-func errDigest(err error) string {
+func errDigest(it *c10Item, err error) string {
 	// error texts may mention map iteration dependent details; keep the class only
+	if it.exactErr {
+		return "error: " + err.Error()
+	}
 	return "error"
 }
 
@@ -97,19 +104,19 @@ func c10Run(cd *j5codec.Codec, it *c10Item, op int) string {
 	case 0:
 		b, err := cd.ProtoToJSON(it.msg.ProtoReflect())
 		if err != nil {
-			return errDigest(err)
+			return errDigest(it, err)
 		}
 		return canonJSONDigest(b)
 	case 1:
 		m := it.newMsg()
 		if err := cd.JSONToProto(it.json, m); err != nil {
-			return errDigest(err)
+			return errDigest(it, err)
 		}
 		return msgDigest(it.env, m.Interface())
 	default:
 		m := it.newMsg()
 		if err := cd.QueryToProto(it.query, m); err != nil {
-			return errDigest(err)
+			return errDigest(it, err)
 		}
 		return msgDigest(it.env, m.Interface())
 	}
@@ -247,6 +254,31 @@ func buildC10Pool() *c10Pool {
 		pool.items = append(pool.items, &c10Item{name: "rejected-family/" + full, md: md, msg: m, newMsg: func() protoreflect.Message { return dynamicpb.NewMessage(md) }})
 	}
 
+	// documents that are rejected at one particular field: the error names that field whatever else is being decoded
+	{
+		sinkMD := sink.ct.message("verif.sink.v1.Sink")
+		// (JSON names of the modelled types carry counters)
+		tm := sink.model.msg("verif.sink.v1.Sink")
+		jn := func(name string) string {
+			for _, f := range tm.Fields {
+				if strings.TrimRight(f.Name, "0123456789") == name+"_" {
+					return f.JSON
+				}
+			}
+			for _, f := range tm.Fields {
+				if f.Name == name {
+					return f.JSON
+				}
+			}
+			panic("harness: no field " + name + " in the sink")
+		}
+		j5, pb, child, kids := jn("j5any"), jn("pbany"), jn("child"), jn("children")
+		for i, doc := range []string{`{"` + j5 + `":{"value":{}}}`, `{"` + pb + `":{"value":{}}}`, `{"` + j5 + `":{"!type":"verif.sink.v1.Leaf"}}`, `{"` + pb + `":{"!type":"verif.sink.v1.Leaf"}}`,
+			`{"` + child + `":{"` + j5 + `":{"value":{}}}}`, `{"` + kids + `":[{},{"` + pb + `":{"value":{}}}]}`, `{"` + jn("s_int32") + `":"x"}`, `{"` + child + `":{"` + jn("s_int64") + `":"x"}}`, `{"zzNoSuchMember":1}`} {
+			pool.items = append(pool.items, &c10Item{name: fmt.Sprintf("rejected-at-field/%d", i), md: sinkMD, msg: dynamicpb.NewMessage(sinkMD), fixedJSON: []byte(doc), exactErr: true,
+				newMsg: func() protoreflect.Message { return dynamicpb.NewMessage(sinkMD) }})
+		}
+	}
 	// expected results: each call made alone on a private codec
 	priv := j5codec.NewCodec(j5codec.WithResolver(sink.ct.Types), j5codec.WithProtoToAny())
 	for _, it := range pool.items {
@@ -255,6 +287,9 @@ func buildC10Pool() *c10Pool {
 			it.json = []byte("{}")
 		} else {
 			it.json = b
+		}
+		if it.fixedJSON != nil {
+			it.json = it.fixedJSON
 		}
 		it.query = url.Values{}
 		if t, perr := parseStrictJSON(it.json); perr == nil {
@@ -616,6 +651,54 @@ func runC10(r *rt.Runner) {
 			}
 		}
 		c.Feature("c10:churn")
+	})
+	// the error path under contention: many goroutines decode documents that are rejected at different fields for the
+	// same reason; each error must name the field of its own document
+	r.Do("contention/rejected-at-field", func(c *rt.C) {
+		c.Input([]byte("contention: 16 goroutines x 300 rejected documents on one codec"))
+		c.Budget(40_000_000)
+		pool := buildC10Pool()
+		cd := j5codec.NewCodec(j5codec.WithResolver(pool.types), j5codec.WithProtoToAny())
+		var items []*c10Item
+		for _, it := range pool.items {
+			if it.exactErr {
+				items = append(items, it)
+			}
+		}
+		if r.Arg("show", "") == "contention" {
+			for _, it := range items {
+				fmt.Printf("SHOW %s %s -> %s\n", it.name, it.json, it.decWant)
+			}
+		}
+		var wg sync.WaitGroup
+		var calls atomic.Int64
+		var mu sync.Mutex
+		wrong := map[string]string{}
+		for g := 0; g < 16; g++ {
+			wg.Add(1)
+			go func(g int) {
+				defer wg.Done()
+				for i := 0; i < 300; i++ {
+					it := items[(g+i)%len(items)]
+					got := c10Run(cd, it, 1)
+					calls.Add(1)
+					if got != it.decWant {
+						mu.Lock()
+						wrong[it.name+" "+string(it.json)] = fmt.Sprintf("alone: %s; under contention: %s", it.decWant, got)
+						mu.Unlock()
+					}
+				}
+			}(g)
+		}
+		wg.Wait()
+		c.EndBudget()
+		c.Eval(rt.Hash("contention/rejected-at-field"), true)
+		c.EventN("calls", calls.Load())
+		for _, k := range rt.SortedKeys(wrong) {
+			c.Violate("result-differs/decode-error-under-contention", fmt.Sprintf("decoding %s on a shared codec beside other rejected documents: %s", k, wrong[k]), nil)
+			break
+		}
+		c.Feature("c10:contention-errors")
 	})
 	nb := r.Scale(200, 6000)
 	for b := 0; b < nb; b++ {
